@@ -335,6 +335,22 @@ func c10(run *core.Run, replay string) {
 		cases = append(cases, &fmtCase{Cfg: kz.Cfg{Transform: t, Entropy: e, BlockSize: bs, Jobs: 1, Checksum: []uint{0, 32, 64}[r.Intn(3)], Hint: hint, Headerless: r.Intn(8) == 0},
 			Shape: pickShape(r), Size: size, Seed: int64(r.Intn(1 << 30)), DecJ: uint(1 + r.Intn(4))})
 	}
+	// systematic grid: every transform x every entropy codec x three block size classes (parameters such as hash / dictionary
+	// sizes are derived from the block size and from the entropy codec name), on the content the transform is made for
+	for ti, t := range kz.Transforms {
+		for ei, e := range kz.Entropies {
+			for bi, bs := range []uint{1024, 32768, 1 << 20} {
+				if !run.Thorough() && (ti+ei+bi)%3 != 0 && !(t == "TEXT" || t == "RLT" || t == "ROLZX" || e == "TPAQX" || e == "TPAQ") {
+					continue
+				}
+				size := []int{5000, 70000, 140000}[bi]
+				if kz.Heavy(e) {
+					size = []int{3000, 24000, 40000}[bi]
+				}
+				cases = append(cases, &fmtCase{Cfg: kz.Cfg{Transform: t, Entropy: e, BlockSize: bs, Jobs: 1, Checksum: []uint{0, 32, 64}[(ti+ei)%3]}, Shape: shapeFor(t), Size: size, Seed: S + int64(ti*27+ei*3+bi), DecJ: uint(1 + (ti+ei)%3)})
+			}
+		}
+	}
 	// tables driven to their capacity: a vocabulary that fills the text codec's dictionary (2^19 entries, reachable only with
 	// block sizes above 4 MiB / 16 MiB) and wraps it; long-distance and many-match inputs in multi-MiB blocks
 	for i, cc := range []struct {
